@@ -32,6 +32,11 @@ CLAIMS = {
     'C05': ('matmul / matmul_blocked / xtx and all Dot-trait products are decided equal to the triple-sum definition for '
             'every shape instance up to 3x3x3, all four transpose flags, block sizes, ownership forms (R); '
             'non-conformable operands must panic.', 'R', '§4 C05'),
+    'C06': ('Sub-clauses only: inverse link, variance function, link derivative and deviance of the six families equal the '
+            'textbook forms (Gaussian deviance = residual sum of squares), predictions = inverse link of X beta + offset '
+            '(R, exp / ln uninterpreted). The score equations of `fit` (one Fisher step of the intercept-only model) are in '
+            'the thorough tier and currently undecided; designs with more than one column, the ridge penalty, standard '
+            'errors and reordering invariance are not decided.', 'R', '§9'),
     'C07': ('trapz exact on affine integrands and equal to the composite rule for arbitrary (uninterpreted) integrands; '
             'Romberg exact on monomials up to degree 2k-1 (k<=4) incl. positive tolerances; quad5 = 10-point Gauss-Legendre '
             'sum for arbitrary integrands plus the table moments up to degree 19; sample trapezoid = piecewise-linear '
@@ -122,9 +127,7 @@ def main():
     print(f'{len(checks)} checks, {len(na)} not_applicable')
 
 
-NA = {
-    'C06': 'not decided in this round: GLM fitting runs through Matrix algebra, six families, the ridge penalty and the linear solver; with the compositional treatment C01 needed (monolithic 2x2 solves do not close) a one-step stationarity harness per family was estimated at several hours and was not built; no other technique is substituted',
-}
+NA = {}
 
 if __name__ == '__main__':
     main()
